@@ -82,6 +82,7 @@ pub fn run(args: &Args) {
     }
     rep.add("cells", cells_done);
     expref_return_table(&mut rep, args);
+    error_propagation_table(&mut rep, args);
     // unknown inner call is reported, not the outer: arguments are evaluated first
     if args.shard == 0 {
         for (text, inner) in [("length(nofn(@))", "nofn"), ("nofn(nofn2(@))", "nofn2"), ("abs(x, nofn3(`1`))", "nofn3")] {
@@ -159,6 +160,84 @@ fn expref_return_table(rep: &mut Report, args: &Args) {
         }
     }
     rep.add("expref_return_table_cells", idx / args.shards);
+}
+
+/// An ill-formed call fails wherever it sits: inside the key expression of a *_by function or
+/// of `map` (for whichever element it is ill-formed), as either operand of a comparison
+/// (whatever the other operand is), as the evaluated operand of `&&` / `||`, inside
+/// multi-selects, filters and pipes. Nothing may swallow the error or skip the call.
+fn error_propagation_table(rep: &mut Report, args: &Args) {
+    if args.shard != 0 {
+        return;
+    }
+    let bad_calls: [(&str, &str); 5] = [("abs(@)", "type"), ("nofn(@)", "unknown-function"), ("abs()", "arity"), ("abs(@, @)", "arity"), ("length(`1`)", "type")];
+    // (a) inside expression references: the element at position j makes the body fail
+    for name in ["sort_by", "max_by", "min_by", "map"] {
+        for len in 1..=5usize {
+            for j in 0..len {
+                for (body, class) in bad_calls.iter() {
+                    let arr: Vec<Value> = (0..len).map(|i| if i == j { json!("x") } else { json!(i as i64 + 1) }).collect();
+                    let doc = Value::Array(arr);
+                    let text = if name == "map" { format!("map(&{}, @)", body) } else { format!("{}(@, &{})", name, body) };
+                    check_fails(rep, &text, &doc, class, &format!("{}/expref-body/{}", name, body));
+                }
+            }
+        }
+    }
+    // (b) operands
+    let lefts = ["name", "`null`", "`1`", "`false`", "`[]`", "'s'", "missing"];
+    let truthy = [true, false, true, false, false, true, false];
+    let doc = json!({"name": "bob", "n": 1});
+    for (li, l) in lefts.iter().enumerate() {
+        for (call, class) in [("abs('x')", "type"), ("nofn(n)", "unknown-function"), ("abs()", "arity")] {
+            for op in ["==", "!=", "<", "<=", ">", ">="] {
+                check_fails(rep, &format!("{} {} {}", l, op, call), &doc, class, "comparison/right-operand");
+                check_fails(rep, &format!("{} {} {}", call, op, l), &doc, class, "comparison/left-operand");
+                check_fails(rep, &format!("[`1`, `2`][?{} {} {}]", l, op, call), &doc, class, "filter/right-operand");
+            }
+            // short-circuit operators: the right operand is evaluated exactly when it decides the result
+            let and_text = format!("{} && {}", l, call);
+            let or_text = format!("{} || {}", l, call);
+            if truthy[li] {
+                check_fails(rep, &and_text, &doc, class, "and/evaluated-right-operand");
+                check_succeeds(rep, &or_text, &doc, "or/skipped-right-operand");
+            } else {
+                check_succeeds(rep, &and_text, &doc, "and/skipped-right-operand");
+                check_fails(rep, &or_text, &doc, class, "or/evaluated-right-operand");
+            }
+            check_fails(rep, &format!("{} && {}", call, l), &doc, class, "and/left-operand");
+            check_fails(rep, &format!("[{}, {}]", l, call), &doc, class, "multi-select-list");
+            check_fails(rep, &format!("{{a: {}, b: {}}}", l, call), &doc, class, "multi-select-hash");
+            check_fails(rep, &format!("{} | {}", l, call), &doc, class, "pipe");
+            check_fails(rep, &format!("!{}", call), &doc, class, "not");
+            check_fails(rep, &format!("not_null({}, {})", l, call), &doc, class, "argument");
+        }
+    }
+}
+
+fn check_fails(rep: &mut Report, text: &str, doc: &Value, class: &str, cell: &str) {
+    rep.evaluations += 1;
+    match guarded(|| jmespath::compile(text).and_then(|e| e.search(rcvar_of(doc)))) {
+        Ok(Err(e)) if err_class(&e) == class => {
+            rep.count("error_propagation/failed_as_required");
+            rep.nontrivial(fnv(format!("{}|{}", cell, text).as_bytes()));
+        }
+        other => rep.violation(
+            &format!("C06/ill-formed-call-did-not-fail/{}", cell.split('/').next().unwrap_or("")),
+            json!({"expression": text, "document": doc, "cell": cell, "expected": class, "got": format!("{:?}", other.map(|r| r.map(|v| v.to_string()).map_err(|e| e.to_string())))}),
+        ),
+    }
+}
+
+fn check_succeeds(rep: &mut Report, text: &str, doc: &Value, cell: &str) {
+    rep.evaluations += 1;
+    match guarded(|| jmespath::compile(text).and_then(|e| e.search(rcvar_of(doc)))) {
+        Ok(Ok(_)) => rep.count("error_propagation/skipped_operand_not_evaluated"),
+        other => rep.violation(
+            "C06/call-evaluated-although-short-circuited",
+            json!({"expression": text, "document": doc, "cell": cell, "got": format!("{:?}", other.map(|r| r.map(|v| v.to_string()).map_err(|e| e.to_string())))}),
+        ),
+    }
 }
 
 fn one_cell(rep: &mut Report, ev: &Evaluator, strict: &Opts, name: &str, classes: &[usize], rng: &mut Rng, r: u64) {
